@@ -385,10 +385,16 @@ func TestC06(t *testing.T) {
 	}
 	close(ch)
 	wg.Wait()
-	run.Cov["evaluations"] = helperCalls + twinCalls
-	run.Cov["states"] = helperCalls + twinCalls
-	run.Cov["transitions"] = helperCalls + twinCalls
-	run.Cov["traces_validated_against_impl"] = twinCalls
+	// "once true it stays true while that replica set is the canary" across whole syncs, also when the mark is written (by
+	// the user's canary fail or by the controller itself) while another sync of the canary replica set is in flight
+	sticky := corpusS3([]string{"n1", "n2"}, "1", "auto", 1, &w.Alpha{MidCmds: []string{"canary-fail"}, PodDev: []string{"restart:3"}, Kubectl: []string{"canary-fail"}})
+	sticky.name = "S3-canary-failed-stays-failed"
+	runWorld(t, run, []scOpt{sticky}, []func(*w.MonCtx){w.MonC07}, 0)
+	requireAntecedents(run, "C07/fail-overtook-sync")
+	run.Cov["evaluations"] = helperCalls + twinCalls + run.Counter("transitions")
+	run.Cov["states"] = helperCalls + twinCalls + run.Counter("states")
+	run.Cov["transitions"] = helperCalls + twinCalls + run.Counter("transitions")
+	run.Cov["traces_validated_against_impl"] = twinCalls + run.Counter("traces_validated_against_impl")
 	run.Cov["helper_calls"] = helperCalls
 	run.Cov["twin_reconciles"] = twinCalls
 	run.Sample(c06Case{Cfg: cfgs[7], Pods: []c06Pod{{Kind: "restarts", Restarts: 3}}})
